@@ -189,6 +189,33 @@ def run_shard(desc):
                 if mult >= 4:
                     sh.nontrivial += 1
         sh.sample({"lattice": LATTICES[li], "ring_pair": [r1, r2], "pairs": len(H1) * len(H2)}, limit=1)
+    # history: the ring table of the SAME unitcell object is rebuilt with another limit and ring tolerance (the pair cache must be
+    # invalidated), then some pairs are oriented again
+    if r1 == 0 and len(rings) >= 2:
+        from ImageD11 import unitcell as _ucm2
+        uc2 = _ucm2.unitcell(cell, sym)
+        lim0 = uc.ringds[min(len(uc.ringds) - 1, nr)] + 1e-3
+        for (lim, tol) in ((lim0, 1e-4), (lim0 * 0.8, 2e-3), (lim0 * 1.1, 1e-5), (lim0, 1e-4)):
+            uc2.makerings(lim, tol)
+            for ra in range(min(2, len(uc2.ringds))):
+                for rb in range(ra, min(3, len(uc2.ringds))):
+                    Ha = [tuple(int(x) for x in h) for h in uc2.ringhkls[uc2.ringds[ra]]]
+                    Hb = [tuple(int(x) for x in h) for h in uc2.ringhkls[uc2.ringds[rb]]]
+                    for h1 in Ha[:4]:
+                        for h2 in Hb[:6]:
+                            a1, a2 = np.array(h1, float), np.array(h2, float)
+                            c = np.dot(a1, np.dot(gi, a2)) / np.sqrt(np.dot(a1, np.dot(gi, a1)) * np.dot(a2, np.dot(gi, a2)))
+                            if abs(c) >= 0.979:
+                                continue
+                            g1, g2 = np.dot(UB, a1), np.dot(UB, a2)
+                            uc2.orient(ra, g1, rb, g2, crange=1e-6)
+                            cands = list(uc2.UBIlist)
+                            if not any(O.lattice_equivalent(u, ubi_true) for u in cands):
+                                sh.violation("orient[after ring table rebuilt]:true-orientation-not-among-candidates",
+                                             {"lattice": li, "cell": cell, "sym": sym, "rot": ri, "ring1": ra, "ring2": rb, "h1": list(h1), "h2": list(h2),
+                                              "seed": seed_of(), "history": "makerings(%g,%g) after earlier tables" % (lim, tol)}, {"n_candidates": len(cands)})
+                            sh.evaluations += 1
+                            sh.nontrivial += 1
     return sh
 
 
